@@ -309,6 +309,13 @@ def customOk (S : Schema) (code : Nat) (v : Val) : Bool :=
     | _ => false
   else true
 
+/-- the value behind an interface: a definite kind, or a NON-NIL pointer to one (the decoders
+    pre-allocate the pointee). -/
+def dynValOk (dk : Kind) (x : Val) : Bool :=
+  match dk with
+  | .ptr _ => (match x with | .ptr (some _) => true | _ => false)
+  | k => k.definite
+
 mutual
   /-- conformance check + normalisation + version cell, following `encK` clause by clause
       (same fuel discipline). `none` = the value is not a well-formed value of the kind at this
@@ -356,11 +363,7 @@ mutual
          | .iface (some (d, x)) =>
            -- the dynamic type is a definite kind or a non-nil pointer to one
            let dk := (S.dyn d).kind
-           let ok := match dk, x with
-             | .ptr _, .ptr (some _) => true
-             | .ptr _, _ => false
-             | k, _ => k.definite
-           if ok then
+           if dynValOk dk x then
              (match normK S fuel dk tag x ver with
               | some (x', ver') => some (.iface (some (d, x')), ver')
               | none => none)
@@ -524,11 +527,7 @@ def topTag (S : Schema) (d tag : Nat) : Nat := if tag = 0 then (S.dyn d).defTag 
 /-- conformance + normalisation of a top-level value of dynamic type `d` under `tag`. -/
 def normTop (S : Schema) (d tag : Nat) (v : Val) : Option (Val × Option Ver) :=
   let dk := (S.dyn d).kind
-  let ok := match dk, v with
-    | .ptr _, .ptr (some _) => true
-    | .ptr _, _ => false
-    | k, _ => k.definite
-  if ok && S.decodable dk then normK S marshalFuel dk (topTag S d tag) v none else none
+  if dynValOk dk v && S.dynOK (S.dyn d) then normK S marshalFuel dk (topTag S d tag) v none else none
 
 /-- the normalisation the decoder applies (nil vs empty byte strings; see `norm_content`). -/
 def norm (S : Schema) (d tag : Nat) (v : Val) : Val :=
@@ -630,6 +629,9 @@ theorem scalar_rt (S : Schema) (n : Nat) (k : Kind) (hk : k.scalar = true) (tag 
     ver' = ver ∧ ∃ it, encK S (n + 1) k tag v ver = .ok ([it], ver) ∧ it.tag = tag
       ∧ encK S (n + 1) k tag v' ver = .ok ([it], ver)
       ∧ normK S (n + 1) k tag v' ver = some (v', ver)
+      ∧ v'.asInt = v.asInt ∧ (v.isZero = false → v'.isZero = false)
+      ∧ (∀ w, normK S (n + 1) k tag v w = some (v', w))
+      ∧ (∀ w, encK S (n + 1) k tag v w = .ok ([it], w))
       ∧ (it.InRange → ∀ (fd : Nat) (rs : List RawItem) (w : Option Ver),
           decK S (fd + 1) k tag { items := it.raw :: rs, tail := none } w
             = .ok (v', { items := rs, tail := none }, w)) := by
@@ -637,44 +639,51 @@ theorem scalar_rt (S : Schema) (n : Nat) (k : Kind) (hk : k.scalar = true) (tag 
   all_goals (cases v <;> simp only [normK] at h <;> try contradiction)
   case i32.int x =>
     obtain ⟨hx, e⟩ := ite_some_eq h; obtain ⟨rfl, rfl⟩ := pair_eq e
-    refine ⟨rfl, .int tag x, by simp only [encK], rfl, by simp only [encK], by simp only [normK, if_pos hx], ?_⟩
+    refine ⟨rfl, .int tag x, by simp only [encK], rfl, by simp only [encK], by simp only [normK, if_pos hx], rfl, id,
+      fun w => by simp only [normK, if_pos hx], fun w => by simp only [encK], ?_⟩
     intro hr fd rs w
     rw [Item.InRange] at hr
     simp only [decK, Cur.integer_raw tag x rs hr.2.2, Res.ok_bind, Res.pure_eq]
   case mask.int t x =>
     obtain ⟨hx, e⟩ := ite_some_eq h; obtain ⟨rfl, rfl⟩ := pair_eq e
-    refine ⟨rfl, .int tag x, by simp only [encK], rfl, by simp only [encK], by simp only [normK, if_pos hx], ?_⟩
+    refine ⟨rfl, .int tag x, by simp only [encK], rfl, by simp only [encK], by simp only [normK, if_pos hx], rfl, id,
+      fun w => by simp only [normK, if_pos hx], fun w => by simp only [encK], ?_⟩
     intro hr fd rs w
     rw [Item.InRange] at hr
     simp only [decK, Cur.integer_raw tag x rs hr.2.2, Res.ok_bind, Res.pure_eq]
   case u8.int x =>
     obtain ⟨hx, e⟩ := ite_some_eq h; obtain ⟨rfl, rfl⟩ := pair_eq e
-    refine ⟨rfl, .int tag x, by simp only [encK], rfl, by simp only [encK], by simp only [normK, if_pos hx], ?_⟩
+    refine ⟨rfl, .int tag x, by simp only [encK], rfl, by simp only [encK], by simp only [normK, if_pos hx], rfl, id,
+      fun w => by simp only [normK, if_pos hx], fun w => by simp only [encK], ?_⟩
     intro hr fd rs w
     rw [Item.InRange] at hr
     simp only [decK, Cur.integer_raw tag x rs hr.2.2, Res.ok_bind, Res.pure_eq, if_neg (by omega : ¬ x < 0)]
   case u16.int x =>
     obtain ⟨hx, e⟩ := ite_some_eq h; obtain ⟨rfl, rfl⟩ := pair_eq e
-    refine ⟨rfl, .int tag x, by simp only [encK], rfl, by simp only [encK], by simp only [normK, if_pos hx], ?_⟩
+    refine ⟨rfl, .int tag x, by simp only [encK], rfl, by simp only [encK], by simp only [normK, if_pos hx], rfl, id,
+      fun w => by simp only [normK, if_pos hx], fun w => by simp only [encK], ?_⟩
     intro hr fd rs w
     rw [Item.InRange] at hr
     simp only [decK, Cur.integer_raw tag x rs hr.2.2, Res.ok_bind, Res.pure_eq, if_neg (by omega : ¬ x < 0)]
   case u32.int x =>
     obtain ⟨hx, e⟩ := ite_some_eq h; obtain ⟨rfl, rfl⟩ := pair_eq e
     have hx' := (isU32_iff x).1 hx
-    refine ⟨rfl, .long tag x, by simp only [encK], rfl, by simp only [encK], by simp only [normK, if_pos hx], ?_⟩
+    refine ⟨rfl, .long tag x, by simp only [encK], rfl, by simp only [encK], by simp only [normK, if_pos hx], rfl, id,
+      fun w => by simp only [normK, if_pos hx], fun w => by simp only [encK], ?_⟩
     intro hr fd rs w
     rw [Item.InRange] at hr
     simp only [decK, Cur.longInteger_raw tag x rs hr.2.2, Res.ok_bind, Res.pure_eq, if_neg (by omega : ¬ x < 0)]
   case i64.int x =>
     obtain ⟨hx, e⟩ := ite_some_eq h; obtain ⟨rfl, rfl⟩ := pair_eq e
-    refine ⟨rfl, .long tag x, by simp only [encK], rfl, by simp only [encK], by simp only [normK, if_pos hx], ?_⟩
+    refine ⟨rfl, .long tag x, by simp only [encK], rfl, by simp only [encK], by simp only [normK, if_pos hx], rfl, id,
+      fun w => by simp only [normK, if_pos hx], fun w => by simp only [encK], ?_⟩
     intro hr fd rs w
     rw [Item.InRange] at hr
     simp only [decK, Cur.longInteger_raw tag x rs hr.2.2, Res.ok_bind, Res.pure_eq]
   case date.int x =>
     obtain ⟨hx, e⟩ := ite_some_eq h; obtain ⟨rfl, rfl⟩ := pair_eq e
-    refine ⟨rfl, .date tag x, by simp only [encK], rfl, by simp only [encK], by simp only [normK, if_pos hx], ?_⟩
+    refine ⟨rfl, .date tag x, by simp only [encK], rfl, by simp only [encK], by simp only [normK, if_pos hx], rfl, id,
+      fun w => by simp only [normK, if_pos hx], fun w => by simp only [encK], ?_⟩
     intro hr fd rs w
     rw [Item.InRange] at hr
     simp only [decK, Cur.dateTime_raw tag x rs hr.2.2, Res.ok_bind, Res.pure_eq]
@@ -682,7 +691,8 @@ theorem scalar_rt (S : Schema) (n : Nat) (k : Kind) (hk : k.scalar = true) (tag 
     obtain ⟨hx, e⟩ := ite_some_eq h; obtain ⟨rfl, rfl⟩ := pair_eq e
     have hx' := (isU32_iff x).1 hx
     refine ⟨rfl, .interval tag x.toNat, by simp only [encK, if_neg (by omega : ¬ x < 0)], rfl,
-      by simp only [encK, if_neg (by omega : ¬ x < 0)], by simp only [normK, if_pos hx], ?_⟩
+      by simp only [encK, if_neg (by omega : ¬ x < 0)], by simp only [normK, if_pos hx], rfl, id,
+      fun w => by simp only [normK, if_pos hx], fun w => by simp only [encK, if_neg (by omega : ¬ x < 0)], ?_⟩
     intro hr fd rs w
     rw [Item.InRange] at hr
     simp only [decK, Cur.interval_raw tag x.toNat rs hr.2.2, Res.ok_bind, Res.pure_eq,
@@ -691,30 +701,35 @@ theorem scalar_rt (S : Schema) (n : Nat) (k : Kind) (hk : k.scalar = true) (tag 
     obtain ⟨hx, e⟩ := ite_some_eq h; obtain ⟨rfl, rfl⟩ := pair_eq e
     have hx' := (isU32_iff x).1 hx
     refine ⟨rfl, .enum tag x.toNat, by simp only [encK], rfl,
-      by simp only [encK], by simp only [normK, if_pos hx], ?_⟩
+      by simp only [encK], by simp only [normK, if_pos hx], rfl, id,
+      fun w => by simp only [normK, if_pos hx], fun w => by simp only [encK], ?_⟩
     intro hr fd rs w
     rw [Item.InRange] at hr
     simp only [decK, Cur.enum_raw tag x.toNat rs hr.2.2, Res.ok_bind, Res.pure_eq,
       Int.toNat_of_nonneg hx'.1]
   case bool.bool b =>
     obtain ⟨rfl, rfl⟩ := pair_eq (Option.some.inj h)
-    refine ⟨rfl, .bool tag b, by simp only [encK], rfl, by simp only [encK], by simp only [normK], ?_⟩
+    refine ⟨rfl, .bool tag b, by simp only [encK], rfl, by simp only [encK], by simp only [normK], rfl, id,
+      fun w => by simp only [normK], fun w => by simp only [encK], ?_⟩
     intro hr fd rs w
     simp only [decK, Cur.bool_raw tag b rs, Res.ok_bind, Res.pure_eq]
   case text.text s =>
     obtain ⟨rfl, rfl⟩ := pair_eq (Option.some.inj h)
-    refine ⟨rfl, .text tag s, by simp only [encK], rfl, by simp only [encK], by simp only [normK], ?_⟩
+    refine ⟨rfl, .text tag s, by simp only [encK], rfl, by simp only [encK], by simp only [normK], rfl, id,
+      fun w => by simp only [normK], fun w => by simp only [encK], ?_⟩
     intro hr fd rs w
     simp only [decK, Cur.textString_raw tag s rs, Res.ok_bind, Res.pure_eq]
   case bytes.bytes b =>
     obtain ⟨rfl, rfl⟩ := pair_eq (Option.some.inj h)
     refine ⟨rfl, .bytes tag (b.getD []), by simp only [encK], rfl, by simp only [encK, Option.getD_some],
-      by simp only [normK, Option.getD_some], ?_⟩
+      by simp only [normK, Option.getD_some], rfl, fun _ => by simp [Val.isZero],
+      fun w => by simp only [normK], fun w => by simp only [encK], ?_⟩
     intro hr fd rs w
     simp only [decK, Cur.byteString_raw tag _ rs, Res.ok_bind, Res.pure_eq]
   case big.big x =>
     obtain ⟨rfl, rfl⟩ := pair_eq (Option.some.inj h)
-    refine ⟨rfl, .big tag x, by simp only [encK], rfl, by simp only [encK], by simp only [normK], ?_⟩
+    refine ⟨rfl, .big tag x, by simp only [encK], rfl, by simp only [encK], by simp only [normK], rfl, id,
+      fun w => by simp only [normK], fun w => by simp only [encK], ?_⟩
     intro hr fd rs w
     simp only [decK, Cur.bigInteger_raw tag x rs, Res.ok_bind, Res.pure_eq]
 
